@@ -37,7 +37,10 @@ try:
             shutil.copy(os.path.join(src, f), os.path.join(dst, f))
     shutil.copy(demo, os.path.join(dst, "demo.py"))
     notes = open(os.path.join(src, "notes.md")).read() if os.path.exists(os.path.join(src, "notes.md")) else ""
-    json.dump({"id": sid, "breaks": breaks.split(","), "origin": "written by a fresh sub-agent given only the property text and a scratch worktree",
+    mp = os.path.join(dst, "meta.json")
+    old = json.load(open(mp)) if os.path.exists(mp) else {}
+    keep = {k: old[k] for k in ("caught_by", "caught_by_detail", "also_check") if k in old}
+    json.dump({**keep, "id": sid, "breaks": breaks.split(","), "origin": "written by a fresh sub-agent given only the property text and a scratch worktree",
                "needs": notes[:900], "demonstration": "PYTHONPATH=<checkout> /venv/bin/python demo.py: exit 0 on the clean tree, non-zero with the patch",
                "confirmed": f"re-run by tools/collect_mutant.py on scratch copies: clean rc={rc_clean}, patched rc={rc_mut}; suite: {suite_res}",
                "demo_failure": out_mut[-300:]}, open(os.path.join(dst, "meta.json"), "w"), indent=1)
